@@ -5,6 +5,7 @@ from contextlib import contextmanager
 from pathlib import Path
 from typing import Any
 
+import jax
 import orbax.checkpoint as checkpoint
 from hydra.utils import instantiate
 from loguru import logger
@@ -346,6 +347,11 @@ class CheckpointMixin(ABC):
 
         if enable_async_checkpointing is not None:
             config.enable_async_checkpointing = enable_async_checkpointing
+
+        # Hydra instantiates the nested problem before the solver, so the precision has to
+        # be set up here for the problem's own arrays to use it
+        if config.get("jax_double_precision", False):
+            jax.config.update("jax_enable_x64", True)
 
         solver = instantiate(config)
 
